@@ -208,17 +208,22 @@ def rule_once(ctx, f):
 def rule_excl(ctx, f):
     ctx.rule("C13-EXCL", "the object / stream caches are cleared only by bodies that hold the storage exclusively (&mut self): clearing from a shared read path "
              "removes entries other threads are computing or waiting for")
+    # every method of the cache trait other than the compute-once look-up removes entries
+    impls = [im for im in f.impls if im.get("trait") == "file::Cache"]
+    muts = sorted({nm for im in impls for nm, bid in im["items"]} - {"get_or_compute"})
+    ctx.floor("C13-EXCL", len(impls), 2, "implementations of file::Cache (NoCache, SyncCache adapter)")
+    ctx.floor("C13-EXCL", len(muts), 1, "entry-removing methods of file::Cache (clear)")
     n = 0
     for b in f.bodies.values():
         for bi, t in F.calls(b):
-            if last_seg(F.callee_name(t)) == "clear" and (t.get("trait") == "file::Cache" or "file::Cache" in F.callee_name(t)):
+            if last_seg(F.callee_name(t)) in muts and (t.get("trait") == "file::Cache" or "file::Cache" in F.callee_name(t)):
                 if (b.get("impl") or {}).get("trait") == "file::Cache":
                     continue        # the adapter forwarding clear()
                 n += 1
                 recv = b["locals"][1]["s"] if b["argc"] >= 1 else ""
-                ctx.check(recv.startswith("&mut "), "C13-EXCL", "%s#cache-clear" % b["id"], "a cache is cleared from a body that only has shared access (%s): concurrent "
-                          "loads lose their in-progress entries" % recv, t["span"], detail="receiver %s" % recv)
-    ctx.floor("C13-EXCL", n, 2, "cache clear sites (create, update)")
+                ctx.check(recv.startswith("&mut "), "C13-EXCL", "%s#cache-%s" % (b["id"], last_seg(F.callee_name(t))), "a cache entry is removed from a body that only has shared "
+                          "access (%s): concurrent loads lose their in-progress entries" % recv, t["span"], detail="receiver %s" % recv)
+    ctx.count("cache-clearing call sites", n)
 
 
 def run(ctx):
